@@ -254,6 +254,30 @@ func cmdCheck(args []string) {
 		}
 	}
 	solveAll(results, cfg, solveThis)
+	// claimed obligations that are no longer generated may have been renamed by the change (an ordinal shifted, a
+	// branch disappeared): solve the unclaimed obligations of the same function and kind as well; a failing one is
+	// then reported instead of silently counting as new.
+	changedFK := map[string]bool{}
+	{
+		have := map[string]bool{}
+		for _, r := range results {
+			for _, ob := range r.Obls {
+				have[ob.Name] = true
+			}
+		}
+		for name := range claimed {
+			if !have[name] {
+				if i := strings.Index(name, "#"); i >= 0 {
+					changedFK[name[:i]+"#"+obKindFromName(name)] = true
+				}
+			}
+		}
+		if len(changedFK) > 0 {
+			solveAll(results, cfg, func(ob *Obligation) bool {
+				return ob.Status == "" && inProp(ob) && changedFK[ob.Fn+"#"+ob.Kind]
+			})
+		}
+	}
 
 	byName := map[string]*Obligation{}
 	resOf := map[string]*FuncResult{}
@@ -280,7 +304,7 @@ func cmdCheck(args []string) {
 			retry = append(retry, ob)
 		}
 	}
-	if len(retry) > 0 {
+	if len(retry) > 0 && os.Getenv("GOVC_NO_RETRY") == "" {
 		cfg2 := &SolverCfg{TimeoutS: 60, Dir: dir, Jobs: runtime.NumCPU(), Seed: seed + 7}
 		set := map[*Obligation]bool{}
 		for _, ob := range retry {
@@ -297,7 +321,7 @@ func cmdCheck(args []string) {
 				continue
 			}
 			if ob.Status == "discharged" && !outside[ob.Fn] {
-				if ob.Ms > int64(to*1000/3) {
+				if ob.Ms > int64(to*1000*7/10) {
 					notes = append(notes, "unclaimed (slow): "+name)
 					continue
 				}
@@ -394,6 +418,12 @@ func cmdCheck(args []string) {
 		}
 		if ob.Status == "" {
 			ob.Status = "not-solved"
+		}
+		if changedFK[ob.Fn+"#"+ob.Kind] && (ob.Status == "refuted" || ob.Status == "unknown") {
+			o := *ob
+			o.Desc = "(takes the place of a claimed obligation that is no longer generated) " + o.Desc
+			violations = append(violations, violation{ob: &o, reason: "renamed-" + ob.Status, res: resOf[name]})
+			continue
 		}
 		undecidedNew = append(undecidedNew, name+" ["+ob.Status+"]")
 	}
